@@ -1,5 +1,195 @@
-"""Kani back end (filled in below)."""
+"""Kani back end: build a harness crate (path-dependencies on the real crates in /repo) and run its harnesses.
+
+The harness crate is copied to /verif/build/kani/<unit>/ on every run, Cargo.lock is taken from /repo, files named
+`*.tpl` are expanded by the extractor (private functions / macros of /repo copied byte for byte), and all harnesses
+declared in unit.json are run with `cargo kani -j`. A harness that is declared but does not report is an
+infrastructure failure (exit 2), a harness that fails is a failed obligation.
+"""
+import json
+import os
+import re
+import shutil
+import subprocess
+import time
+
+from . import extract
+
+
+def _prepare(uname, ucfg, repo, verif, build):
+    src = os.path.join(verif, ucfg['crate'])
+    dst = os.path.join(build, 'kani', uname)
+    if os.path.exists(dst):
+        shutil.rmtree(dst)
+    shutil.copytree(src, dst, ignore=shutil.ignore_patterns('target', 'Cargo.lock'))
+    lock = os.path.join(repo, 'Cargo.lock')
+    if os.path.exists(lock):
+        shutil.copy(lock, os.path.join(dst, 'Cargo.lock'))
+    if repo != '/repo':
+        p = os.path.join(dst, 'Cargo.toml')
+        open(p, 'w').write(open(p).read().replace('"/repo/', '"' + repo.rstrip('/') + '/'))
+    items = []
+    rewrites = []
+    for root, _, files in os.walk(dst):
+        for f in files:
+            if f.endswith('.tpl'):
+                tp = os.path.join(root, f)
+                text, ex = extract.build_unit(repo, open(tp).read())
+                open(tp[:-4], 'w').write(text)
+                os.remove(tp)
+                items += ex.items
+                rewrites += ex.rewrites
+    gen = ucfg.get('generator')
+    if gen:
+        from . import generators
+        more = getattr(generators, gen)(repo, dst, ucfg)
+        items += more.get('items', [])
+    return dst, items, rewrites
+
+
+def parse_log(out):
+    """-> {harness: [failed check descriptions]} from terse `cargo kani -j` output (blocks are tagged by thread)."""
+    cur = {}
+    active = None
+    detail = {}
+    for line in out.splitlines():
+        line = re.sub(r'\x1b\[[0-9;]*m', '', line)
+        m = re.match(r'Thread (\d+): Checking harness ([\w:]+)', line)
+        if m:
+            cur[m.group(1)] = m.group(2)
+            continue
+        m = re.match(r'Thread (\d+):\s*$', line)
+        if m:
+            active = cur.get(m.group(1))
+            continue
+        m = re.match(r'Checking harness ([\w:]+)', line)
+        if m:
+            active = m.group(1)
+            continue
+        m = re.match(r'\s*Failed Checks: (.*)', line)
+        if m and active:
+            detail.setdefault(active, []).append(m.group(1).strip())
+            continue
+        m = re.match(r'\s*File: "(.*)", line (\d+), in (.*)', line)
+        if m and active and detail.get(active):
+            detail[active][-1] += f' [{os.path.basename(m.group(1))}:{m.group(2)} in {m.group(3)}]'
+    return detail
+
+
+def parse_json(path):
+    """-> {harness: dict(status, total, passed, failed)} from `--export-json`."""
+    res = {}
+    try:
+        d = json.load(open(path))
+    except Exception:
+        return res
+    for e in d.get('error_details', []):
+        h = e.get('harness_id')
+        if not e.get('has_errors'):
+            st = 'success'
+        elif e.get('exit_status') == 'timeout':
+            st = 'timeout'
+        elif e.get('exit_status') in ('out_of_memory', 'oom'):
+            st = 'timeout'
+        else:
+            st = 'failure'
+        res[h] = dict(status=st, raw=e)
+    for p in d.get('property_details', []):
+        h = p.get('harness_id')
+        pd = p.get('property_details') or {}
+        if h in res:
+            res[h].update(total=pd.get('total_properties'), passed=pd.get('passed'), failed=pd.get('failed'), unreachable=pd.get('unreachable'))
+    return res
 
 
 def run_unit(uname, ucfg, tier, repo, verif, build, log):
-    raise NotImplementedError
+    t0 = time.time()
+    res = dict(unit=uname, backend='kani', status='ok', failed=[], assumptions=[a['id'] + ': ' + a['text'] for a in ucfg.get('assumptions', [])],
+               functions=[], bounded=[], harnesses={})
+    try:
+        dst, items, rewrites = _prepare(uname, ucfg, repo, verif, build)
+    except (extract.ExtractError, extract.ScanError) as e:
+        res.update(status='undecided', reason=f'extraction failed: {e}')
+        return res
+    res['functions'] = items + [dict(kind='api', source=s['source'], selector=s['selector'], sha=_sha_of(repo, s), name=s['selector'])
+                                for s in ucfg.get('api_under_contract', [])]
+    res['rewrites'] = rewrites
+    declared = {h: c for h, c in ucfg['harnesses'].items() if tier == 'thorough' or c.get('tier', 'quick') == 'quick'}
+    flags = ucfg.get('flags', ['-Z', 'function-contracts', '-Z', 'stubbing'])
+    tdir = os.path.join(build, 'kani-target', uname)
+    cmd = ['cargo', 'kani'] + flags + ['-Z', 'unstable-options', '--target-dir', tdir, '-j', str(ucfg.get('jobs', 12)),
+                                        '--output-format', 'terse', '--harness-timeout', str(ucfg.get('harness_timeout', 300))]
+    jpath = os.path.join(build, 'logs', f'kani_{uname}.json')
+    os.makedirs(os.path.join(build, 'logs'), exist_ok=True)
+    if os.path.exists(jpath):
+        os.remove(jpath)
+    cmd += ['--export-json', jpath, '--exact']
+    for h in declared:
+        cmd += ['--harness', h]
+    env = dict(os.environ, CARGO_NET_OFFLINE='true', CARGO_TERM_COLOR='never', RUST_BACKTRACE='0')
+    try:
+        p = subprocess.run(cmd, cwd=dst, env=env, stdout=subprocess.PIPE, stderr=subprocess.STDOUT, text=True, timeout=ucfg.get('timeout', 3000))
+        out = p.stdout
+    except subprocess.TimeoutExpired as e:
+        out = e.stdout.decode() if isinstance(e.stdout, bytes) else (e.stdout or '')
+        out += '\n<<wall timeout>>'
+    os.makedirs(os.path.join(build, 'logs'), exist_ok=True)
+    open(os.path.join(build, 'logs', f'kani_{uname}.log'), 'w').write(out)
+    res['checker_cmd'] = ' '.join(cmd[:cmd.index('--harness')] if '--harness' in cmd else cmd) + ' --harness <each declared harness>'
+    res['wall_s'] = round(time.time() - t0, 1)
+    if 'error: could not compile' in out or 'Failed to execute cargo' in out or 'error[E' in out:
+        errs = [l for l in out.splitlines() if l.startswith('error')][:4]
+        res.update(status='undecided', reason='harness crate does not compile against the current tree (API changed / lost anchor): ' + ' | '.join(errs))
+        return res
+    detail = parse_log(out)
+    jres = parse_json(jpath)
+    n_obl = 0
+    n_dis = 0
+    names = []
+    n_props = 0
+    for h, c in declared.items():
+        short = h.split('::')[-1]
+        jr = jres.get(h)
+        got = jr['status'] if jr else None
+        if jr and jr.get('total'):
+            n_props += jr['total']
+        oname = f"{uname}::{c.get('fn', short)}::{c.get('kind', 'ensures')}[{c.get('label', short)}]"
+        names.append(oname)
+        n_obl += 1
+        res['harnesses'][h] = got or 'no-result'
+        if c.get('bounded'):
+            res['bounded'].append(f'{oname}: {c["bounded"]}')
+        if got == 'success':
+            n_dis += 1
+        elif got == 'failure':
+            dl = detail.get(h) or []
+            res['failed'].append(dict(kind=c.get('kind', 'ensures'), fn=c.get('fn', short), label=c.get('label', short), name=oname,
+                                      message='Kani: verification failed: ' + '; '.join(dl[:4]), site_text=h, clause_text=c.get('text', ''),
+                                      harness=h, aux=False, witness_args=c.get('witness_args')))
+        elif got == 'timeout':
+            if c.get('optional'):
+                res['bounded'].append(f'{oname}: DROPPED this run (harness exceeded its time limit); not counted as proved')
+                n_obl -= 1
+                names.pop()
+            else:
+                res['status'] = 'undecided'
+                res['reason'] = (res.get('reason', '') + f' harness {h} timed out;').strip()
+        else:
+            res['status'] = 'undecided'
+            res['reason'] = (res.get('reason', '') + f' harness {h} produced no result (vacuity guard 1);').strip()
+    res['cbmc_properties_checked'] = n_props
+    res['n_obligations'] = n_obl
+    res['n_discharged'] = n_dis
+    res['obligation_names'] = names
+    res['verifier_output'] = [l for l in out.splitlines() if 'Failed Checks' in l or 'Verification failed' in l][:20]
+    return res
+
+
+def _sha_of(repo, s):
+    import hashlib
+    from .rsscan import RustFile, ScanError
+    try:
+        f = RustFile(os.path.join(repo, s['source']))
+        k, n, a, h, e = f.locate([x.strip() for x in s['selector'].split('::')])
+        return hashlib.sha256(f.src[a:e].encode()).hexdigest()[:16]
+    except Exception as e:
+        return 'unlocated'
